@@ -61,7 +61,23 @@ def known_sig(t, l, clause):
                 if kids and all(a['state'] in ('SUCCESS', 'ERROR', 'CANCELLED') for a in kids):
                     stuck.append(x['sid'])
         out['items_task_stuck_after_noreset_rerun'] = bool(stuck)
-    if clause == 'PartialRerunOnlyFailed' and noreset:
+    reruns = [k for k, st in enumerate(t['steps'][:l]) if st['ev']['kind'] == 'op' and st['ev']['what'] == 'rerun' and st['ev']['exc'] == 'none']
+    if clause in ('OnePerIndex', 'CompleteAfterAll', 'WithItemsFinalState', 'WithinLimit', 'NoHang', 'NoStuckTaskAtRest') and reruns:
+        # rerun of a with-items task with concurrency: an index is started again while its re-execution is still running
+        k0 = reruns[-1]
+        target = t['steps'][k0]['ev'].get('target', '')
+        before_sids = set(a['sid'] for a in (t['steps'][k0 - 1]['obs']['ax'] if k0 >= 1 else []))
+        seen = {}
+        dup_running = False
+        for st in t['steps'][k0:l]:
+            for a in st['obs']['ax']:
+                if a['task'] == target and a['sid'] not in before_sids and a['sid'] not in seen:
+                    sib = [b for b in st['obs']['ax'] if b['task'] == target and b['idx'] == a['idx'] and b['sid'] in seen]
+                    if any(b['state'] in ('RUNNING', 'IDLE') for b in sib):
+                        dup_running = True
+                    seen[a['sid']] = a['idx']
+        out['rerun_started_index_twice_while_running'] = dup_running
+    if clause in ('PartialRerunOnlyFailed', 'OnePerIndex', 'CompleteAfterAll', 'WithItemsFinalState') and noreset:
         k = noreset[-1]
         before = t['steps'][k - 1]['obs'] if k >= 1 else {'ax': [], 'wf': []}
         target = t['steps'][k]['ev'].get('target', '')
